@@ -957,6 +957,7 @@ class error_residual_std(ErrorEstimator):
         output_scale = observed.residual_whitened_rms_tree(zeros)
         observed = observed.rescale_cholesky(output_scale)
         error = observed.std
+        num_observed_tcoeffs = len(error)
         error, _ = tree.ravel_pytree(error)
 
         # Compute a reference
@@ -979,7 +980,11 @@ class error_residual_std(ErrorEstimator):
         if self.error_per_unit_step:
             n += 1
 
-        if error.shape not in [(1,), reference.shape]:
+        # The constraint must observe exactly one Taylor coefficient. Checking this on top of the
+        # shapes matters in isotropic models (one scalar per observed coefficient), where a
+        # jet-lifted constraint can match the state's shape by coincidence.
+        shapes_mismatch = error.shape not in [(1,), reference.shape]
+        if num_observed_tcoeffs != 1 or shapes_mismatch:
             msg = f"The error-estimate and reference have different shapes ({error.shape} vs {reference.shape})."
             msg += (
                 " This is typically caused by using the residual-based error estimator"
